@@ -1,7 +1,10 @@
 package main
 
 import (
+	"bufio"
 	"bytes"
+	"encoding/hex"
+	"encoding/json"
 	"fmt"
 	"os"
 	"os/exec"
@@ -45,7 +48,22 @@ func converter() (string, error) {
 		}
 		convDir = dir
 		convPath = filepath.Join(dir, "conv")
-		cmd := exec.Command("go", "build", "-o", convPath, "./cmd/shadowsocks-go-domain-set-converter")
+		// the batch entry is added to the build by an overlay (nothing is written into the tree under test):
+		// an init() in package main that, when C10_BATCH is set, feeds (tag, text) pairs from stdin to the real
+		// DomainSetBuilderFromDlc / WriteText / WriteGob and exits before main() runs.
+		batchSrc := filepath.Join(dir, "zz_c10_batch.go")
+		if err := os.WriteFile(batchSrc, []byte(batchEntrySource), 0o644); err != nil {
+			convErr = err
+			return
+		}
+		ov, _ := json.Marshal(map[string]any{"Replace": map[string]string{
+			filepath.Join(repo, "cmd", "shadowsocks-go-domain-set-converter", "zz_c10_batch.go"): batchSrc}})
+		ovPath := filepath.Join(dir, "overlay.json")
+		if err := os.WriteFile(ovPath, ov, 0o644); err != nil {
+			convErr = err
+			return
+		}
+		cmd := exec.Command("go", "build", "-overlay", ovPath, "-o", convPath, "./cmd/shadowsocks-go-domain-set-converter")
 		cmd.Dir = repo
 		env := os.Environ()
 		env = append(env, "GOFLAGS=-mod=mod", "GOPROXY=off", "GOTOOLCHAIN=auto")
@@ -113,6 +131,113 @@ func runConverter(inFlag, input, tag string, limitKB int) convResult {
 		} else {
 			res.status, res.text, res.gob = "ok", string(t), string(g)
 		}
+	}
+	return res
+}
+
+const batchEntrySource = `package main
+
+import (
+	"bufio"
+	"bytes"
+	"encoding/hex"
+	"fmt"
+	"os"
+	"strings"
+)
+
+func init() {
+	if os.Getenv("C10_BATCH") == "" {
+		return
+	}
+	sc := bufio.NewScanner(os.Stdin)
+	sc.Buffer(make([]byte, 1<<20), 1<<28)
+	w := bufio.NewWriter(os.Stdout)
+	for sc.Scan() {
+		f := strings.Fields(sc.Text())
+		if len(f) != 2 {
+			fmt.Fprintln(w, "bad")
+			continue
+		}
+		dec := func(x string) string {
+			if x == "-" {
+				return ""
+			}
+			b, _ := hex.DecodeString(x)
+			return string(b)
+		}
+		func() {
+			defer func() {
+				if p := recover(); p != nil {
+					fmt.Fprintf(w, "panic %s\n", hex.EncodeToString([]byte(fmt.Sprint(p))))
+				}
+			}()
+			tag = dec(f[0])
+			dsb, err := DomainSetBuilderFromDlc(dec(f[1]))
+			if err != nil {
+				fmt.Fprintf(w, "err %s\n", hex.EncodeToString([]byte(err.Error())))
+				return
+			}
+			var tb, gb bytes.Buffer
+			if err := dsb.WriteText(&tb); err != nil {
+				fmt.Fprintf(w, "err %s\n", hex.EncodeToString([]byte("WriteText: "+err.Error())))
+				return
+			}
+			if err := dsb.WriteGob(&gb); err != nil {
+				fmt.Fprintf(w, "err %s\n", hex.EncodeToString([]byte("WriteGob: "+err.Error())))
+				return
+			}
+			fmt.Fprintf(w, "ok %s %s\n", hex.EncodeToString(tb.Bytes()), hex.EncodeToString(gb.Bytes()))
+		}()
+	}
+	w.Flush()
+	os.Exit(0)
+}
+`
+
+// runConverterBatch runs the real dlc reader and both writers on many cases in one child process.
+func runConverterBatch(cases []Case) []convResult {
+	res := make([]convResult, len(cases))
+	conv, err := converter()
+	if err != nil {
+		for i := range res {
+			res[i].status = "fatal:" + err.Error()
+		}
+		return res
+	}
+	var in bytes.Buffer
+	for _, c := range cases {
+		in.WriteString(hx(c.Tag) + " " + hx(c.Text) + "\n")
+	}
+	cmd := exec.Command(conv)
+	cmd.Env = append(os.Environ(), "C10_BATCH=1")
+	cmd.Stdin = &in
+	var out, stderr bytes.Buffer
+	cmd.Stdout, cmd.Stderr = &out, &stderr
+	runErr := cmd.Run()
+	sc := bufio.NewScanner(&out)
+	sc.Buffer(make([]byte, 1<<20), 1<<28)
+	i := 0
+	for sc.Scan() && i < len(res) {
+		f := strings.Fields(sc.Text())
+		switch {
+		case len(f) == 3 && f[0] == "ok":
+			t, _ := hex.DecodeString(f[1])
+			g, _ := hex.DecodeString(f[2])
+			res[i] = convResult{status: "ok", text: string(t), gob: string(g)}
+		case len(f) == 2 && f[0] == "err":
+			m, _ := hex.DecodeString(f[1])
+			res[i] = convResult{status: "err", stderr: string(m)}
+		case len(f) == 2 && f[0] == "panic":
+			m, _ := hex.DecodeString(f[1])
+			res[i] = convResult{status: "panic", stderr: string(m)}
+		default:
+			res[i] = convResult{status: "fatal:unparsable answer " + short(sc.Text())}
+		}
+		i++
+	}
+	for ; i < len(res); i++ {
+		res[i] = convResult{status: fmt.Sprintf("fatal:batch child ended early (%v) %s", runErr, short(stderr.String()))}
 	}
 	return res
 }
@@ -208,6 +333,12 @@ func dlcEval(cases []Case, d *common.Driver, o *common.Options, rp *common.Repor
 	}
 	var pend []pending
 	var lines []string
+	// generated batches go through one child (real reader + writers, entered by the overlay init); directed cases and
+	// replays go through the real command line of the converter (flag parsing, file I/O of main())
+	var batch []convResult
+	if len(cases) > 8 {
+		batch = runConverterBatch(cases)
+	}
 	for i, c := range cases {
 		fail := func(key, format string, a ...any) {
 			rp.Fail(common.OracleFailure{Engine: "dlc", Key: "dlc:" + key, Case: c, Detail: fmt.Sprintf(format, a...)})
@@ -215,32 +346,24 @@ func dlcEval(cases []Case, d *common.Driver, o *common.Options, rp *common.Repor
 		sel := dlcSelected(c)
 		bt := newBrute(sel)
 		want := bt.bits(c.Probes)
-		res := runConverter("-inDlc", c.Text, c.Tag, 0)
+		var res convResult
+		if batch != nil {
+			res = batch[i]
+		} else {
+			res = runConverter("-inDlc", c.Text, c.Tag, 0)
+			rp.Count("dlc:through-command-line")
+		}
 		var steps []step
-		// regexp facts for the model
-		var reBad, reTrue []string
-		seen := map[string]bool{}
+		// regexp facts for the model are taken below from the regexps the real reader produced (also from lines the
+		// generator did not mean as entries, e.g. "regexp:" = the empty pattern)
+		reSeen := map[string]bool{}
+		var reList []string
 		for _, e := range c.Entries {
-			if e.Kind != "regexp" || seen[e.Value] {
-				continue
-			}
-			seen[e.Value] = true
-			re := newBrute([]Rule{{"r", e.Value}}).res[e.Value]
-			if re == nil {
-				reBad = append(reBad, e.Value)
-				continue
-			}
-			for _, p := range c.Probes {
-				if re.MatchString(p) {
-					reTrue = append(reTrue, hx(e.Value)+":"+hx(p))
-				}
+			if e.Kind == "regexp" && !reSeen[e.Value] {
+				reSeen[e.Value] = true
+				reList = append(reList, e.Value)
 			}
 		}
-		rt := "."
-		if len(reTrue) > 0 {
-			rt = strings.Join(reTrue, ",")
-		}
-		steps = append(steps, step{line: "rebad " + hxList(reBad)}, step{line: "retrue " + rt})
 		dlcCmd := "dlc " + hx(c.Tag) + " " + hx(c.Text)
 		nontrivial := false
 		switch {
@@ -284,6 +407,14 @@ func dlcEval(cases []Case, d *common.Driver, o *common.Options, rp *common.Repor
 				if pan != nil {
 					fail("panic", "%s: loading the converter's output panicked: %v", out.name, pan)
 					continue
+				}
+				if r.err == "" {
+					for _, p := range rulesOf(r.builder[3]) {
+						if !reSeen[p] {
+							reSeen[p] = true
+							reList = append(reList, p)
+						}
+					}
 				}
 				if c.TextOK {
 					switch {
@@ -329,6 +460,26 @@ func dlcEval(cases []Case, d *common.Driver, o *common.Options, rp *common.Repor
 					}
 				}
 			}
+		}
+		{
+			var reBad, reTrue []string
+			for _, pat := range reList {
+				re := newBrute([]Rule{{"r", pat}}).res[pat]
+				if re == nil {
+					reBad = append(reBad, pat)
+					continue
+				}
+				for _, p := range c.Probes {
+					if re.MatchString(p) {
+						reTrue = append(reTrue, hx(pat)+":"+hx(p))
+					}
+				}
+			}
+			rt := "."
+			if len(reTrue) > 0 {
+				rt = strings.Join(reTrue, ",")
+			}
+			steps = append([]step{{line: "rebad " + hxList(reBad)}, {line: "retrue " + rt}}, steps...)
 		}
 		rp.Case("dlc|"+c.Tag+"|"+c.Text, nontrivial)
 		if c.Tag == "" {
@@ -377,19 +528,20 @@ func dlcEval(cases []Case, d *common.Driver, o *common.Options, rp *common.Repor
 }
 
 // hintBoundaryProbe runs the real loader (through the converter, in a child process with an address-space limit) on
-// capacity hints around the precondition of make([]string, 0, n) and records what happened. No claim is attached:
-// the outcome goes into the evidence notes (b-c18 decides under C18).
+// capacity hints around the precondition of make([]string, 0, n) and records what happened in the evidence notes;
+// the model (hints clamped by the text size, theorem builderFromTextX_eq) predicts a normal load for all of them.
 func hintBoundaryProbe(rp *common.Report) {
 	if _, err := converter(); err != nil {
 		rp.Note("hint boundary probe skipped: %v", err)
 		return
 	}
 	for _, h := range []struct{ what, hint, expect string }{
-		{"keyword hint 2^44+1", "0 0 17592186044417 0", "panic"},
-		{"regexp hint 2^63-1", "0 0 0 9223372036854775807", "panic"},
-		{"keyword hint 2^44 (largest cap makeslice accepts)", "0 0 17592186044416 0", "fatal"},
-		{"keyword hint 2^28 (4 GiB of string headers) under a 2 GiB address-space limit", "0 0 268435456 0", "fatal"},
-		{"domain hint 2^63-1 (dropped by make(map, n))", "9223372036854775807 0 0 0", "ok"},
+		{"keyword hint 2^44+1 (beyond the precondition of make([]string, 0, n))", "0 0 17592186044417 0", "ok"},
+		{"regexp hint 2^63-1", "0 0 0 9223372036854775807", "ok"},
+		{"keyword hint 2^44 (largest cap makeslice accepts; 256 TiB)", "0 0 17592186044416 0", "ok"},
+		{"keyword hint 2^28 (4 GiB of string headers) under a 2 GiB address-space limit", "0 0 268435456 0", "ok"},
+		{"domain hint 2^24 (a 16M-entry map)", "16777216 0 0 0", "ok"},
+		{"domain hint 2^63-1", "9223372036854775807 0 0 0", "ok"},
 		{"keyword hint 2^16", "0 0 65536 0", "ok"},
 	} {
 		text := hintPrefix + h.hint + " DSKR\nsuffix:a.com\n"
@@ -402,7 +554,7 @@ func hintBoundaryProbe(rp *common.Report) {
 		rp.Note("capacity hint probe: %s: file %q -> %s", h.what, text, st)
 		rp.Count("hint-probe:" + got)
 		// the model's prediction for the two regimes it covers
-		if h.expect == "panic" && got != "panic" || h.expect == "ok" && got != "ok" {
+		if got != h.expect { // the model (clamp by text size) predicts a normal load for every hint value
 			rp.Diverge(common.Divergence{Engine: "dlc", Case: Case{Engine: "domainset", Text: text}, Impl: st, Model: h.expect, Note: "capacity hint vs the precondition of make: " + h.what})
 		}
 	}
@@ -420,7 +572,7 @@ func dlcEngine() engine {
 			}
 			return dlcEval(cases, d, o, rp)
 		},
-		budget: func(o *common.Options) int { return o.Budget(250, 3000) },
+		budget: func(o *common.Options) int { return o.Budget(400, 6000) },
 		batch:  50,
 		directed: func(o *common.Options) []Case {
 			mk := func(tag, text string, ok bool, es ...DlcEntry) Case {
